@@ -67,7 +67,7 @@ def evil_upstream(c, a, rec):
     time.sleep(0.3)
 
 evil = Origin(evil_upstream)
-ports = {k: free_port() for k in ('http', 'socks', 'rtcp', 'rudp', 'quic', 'api')}
+ports = {k: free_port() for k in ('http', 'socks', 'rtcp', 'rudp', 'quic', 'api', 'https', 'sockss')}
 cfg = {
     'listeners': [
         {'name': 'http', 'bind': f"127.0.0.1:{ports['http']}"},
@@ -75,6 +75,8 @@ cfg = {
         {'name': 'rtcp', 'type': 'reverse', 'bind': f"127.0.0.1:{ports['rtcp']}", 'target': f'127.0.0.1:{echo.port}'},
         {'name': 'rudp', 'type': 'reverse', 'protocol': 'udp', 'bind': f"127.0.0.1:{ports['rudp']}", 'target': f'127.0.0.1:{echo.port}'},
         {'name': 'quic', 'type': 'quic', 'bind': f"127.0.0.1:{ports['quic']}", 'tls': {'cert': f'{CERTS}/server.crt', 'key': f'{CERTS}/server.key'}},
+        {'name': 'https', 'type': 'http', 'bind': f"127.0.0.1:{ports['https']}", 'tls': {'cert': f'{CERTS}/server.crt', 'key': f'{CERTS}/server.key'}},
+        {'name': 'sockss', 'type': 'socks', 'bind': f"127.0.0.1:{ports['sockss']}", 'tls': {'cert': f'{CERTS}/server.crt', 'key': f'{CERTS}/server.key'}},
     ],
     'connectors': [{'name': 'direct'}, {'name': 'evil', 'type': 'http', 'server': '127.0.0.1', 'port': evil.port}],
     'rules': [{'filter': 'request.target.host =~ "\\\\.test$"', 'target': 'evil'}, {'target': 'direct'}],
@@ -116,6 +118,25 @@ def probes(px):
         s.close()
     except OSError:
         out['rtcp'] = False
+    # the TLS variants of the two handshaking listeners
+    import ssl as _ssl
+    for lname in ('https', 'sockss'):
+        if not any(l.get('name') == lname for l in px.cfg.get('listeners', [])):
+            continue
+        try:
+            raw = socket.create_connection(('127.0.0.1', ports[lname]), timeout=4)
+            t = _ssl.create_default_context(cafile=f'{CERTS}/ca.crt').wrap_socket(raw, server_hostname='localhost')
+            if lname == 'https':
+                _, code, head, rest = http_connect(None, f'127.0.0.1:{echo.port}', timeout=4, sock=t)
+                ok = code == 200
+            else:
+                _, r = socks5_connect(None, '127.0.0.1', echo.port, timeout=4, sock=t)
+                ok = r['rep'] == 0
+            if ok:
+                t.sendall(b'p'); ok = recv_exact(t, 1, 2) == b'p'
+            t.close(); out[lname] = ok
+        except (OSError, ValueError):
+            out[lname] = False
     st, _ = px.api('GET', '/status')
     out['api'] = st == 200
     return out
@@ -205,6 +226,13 @@ for name, msg in hs.items():
     for cut in (0, 1, len(msg) // 2, len(msg) - 1):
         s = socket.create_connection(('127.0.0.1', port), timeout=3)
         s.sendall(msg[:cut])
+        stalled.append(s)
+# ... and inside the TLS handshake of the TLS listeners: nothing sent, a record header, half a ClientHello
+HELLO = bytes.fromhex('16030100c8010000c40303') + bytes(32) + b'\x00'
+for lname in ('https', 'sockss'):
+    for cut in (0, 3, len(HELLO)):
+        s = socket.create_connection(('127.0.0.1', ports[lname]), timeout=3)
+        s.sendall(HELLO[:cut])
         stalled.append(s)
 time.sleep(0.3)
 st, body = px.api('GET', '/live', timeout=4)
